@@ -663,13 +663,39 @@ pub fn probe_child(spec: &str) -> ! {
                 let _ = writeln!(o, "B {i}");
                 let _ = o.flush();
             }
-            let verdict = match pvkit::panics::guarded(|| targets::run(t, &bytes, Mode::DecodeOnly)) {
-                Ok(o) => (if o.ok { "ok" } else { "err" }).to_string(),
-                Err(p) => format!("panic {}", p.sig),
-            };
-            let mut o = out.lock();
-            let _ = writeln!(o, "E {i} {verdict}");
-            let _ = o.flush();
+            // each item runs in a forked copy of this (single-threaded) process, so that an item
+            // that kills its process does not end the batch
+            let t0 = std::time::Instant::now();
+            let pid = unsafe { libc::fork() };
+            if pid == 0 {
+                let verdict = match pvkit::panics::guarded(|| targets::run(t, &bytes, Mode::DecodeOnly)) {
+                    Ok(o) => (if o.ok { "ok" } else { "err" }).to_string(),
+                    Err(p) => format!("panic {}", p.sig),
+                };
+                let mut o = out.lock();
+                let _ = writeln!(o, "E {i} {verdict}");
+                let _ = o.flush();
+                unsafe { libc::_exit(0) };
+            }
+            let mut status: libc::c_int = 0;
+            let waited = if pid > 0 { unsafe { libc::waitpid(pid, &mut status, 0) } } else { -1 };
+            if pid < 0 || waited < 0 {
+                let mut o = out.lock();
+                let _ = writeln!(o, "E {i} harness fork/wait failed");
+                let _ = o.flush();
+            } else if libc::WIFSIGNALED(status) {
+                let mut o = out.lock();
+                let _ = writeln!(o, "E {i} died {}", libc::WTERMSIG(status));
+                let _ = o.flush();
+            } else if libc::WIFEXITED(status) && libc::WEXITSTATUS(status) != 0 {
+                let mut o = out.lock();
+                let _ = writeln!(o, "E {i} died -{}", libc::WEXITSTATUS(status));
+                let _ = o.flush();
+            }
+            if std::env::var_os("PV_DECODE_PROBE_TIMING").is_some() {
+                let mut o = out.lock();
+                let _ = writeln!(o, "T {i} {} ms {} bytes target {}", t0.elapsed().as_millis(), bytes.len(), t.name());
+            }
         }
         std::process::exit(0)
     }
@@ -749,7 +775,9 @@ fn run_isolated(items: &[(Target, Segs)]) -> Vec<ProbeResult> {
             .env("PV_DECODE_PROBE", format!("batch:{}", file.display()))
             .stderr(std::process::Stdio::null())
             .output();
-        let _ = std::fs::remove_file(&file);
+        if std::env::var_os("PV_DECODE_KEEP_LISTS").is_none() {
+            let _ = std::fs::remove_file(&file);
+        }
         let out = match out {
             Ok(o) => o,
             Err(e) => {
@@ -768,6 +796,8 @@ fn run_isolated(items: &[(Target, Segs)]) -> Vec<ProbeResult> {
                 results.push(match verdict {
                     "ok" => ProbeResult::Returned(true),
                     "err" => ProbeResult::Returned(false),
+                    v if v.starts_with("died ") => ProbeResult::Died(v[5..].trim().parse().unwrap_or(0)),
+                    v if v.starts_with("harness ") => ProbeResult::Harness(v.to_string()),
                     v => ProbeResult::Panicked(v.strip_prefix("panic ").unwrap_or(v).to_string()),
                 });
                 done += 1;
@@ -953,8 +983,14 @@ pub fn run(s: &Session) {
     let depths: Vec<u32> = s.pick(vec![1_000, 10_000, 100_000], vec![1_000, 10_000, 100_000, 1_000_000]);
     let lens: [u32; 2] = [32, 62];
     // (a) hand-built hosts around the recursive ledger types
-    let ledger_targets: Vec<Target> =
-        all_targets.iter().copied().filter(|t| matches!(t.group(), "tx" | "output" | "block")).collect();
+    // quick: the eras whose transactions / outputs carry the recursive types; thorough: every ledger entry point
+    let ledger_targets: Vec<Target> = all_targets
+        .iter()
+        .copied()
+        .filter(|t| matches!(t.group(), "tx" | "output" | "block"))
+        .filter(|t| !s.quick() || matches!(t, Target::Block | Target::Tx | Target::TxEra(4..=6) | Target::Output(5..=6)))
+        .collect();
+    let tpl_depths: Vec<u32> = s.pick(vec![1_000, 100_000], depths.clone());
     for tpl in TEMPLATES {
         for t in &ledger_targets {
             let fits = match t.group() {
@@ -966,7 +1002,7 @@ pub fn run(s: &Session) {
                 continue;
             }
             for kind in NEST_KINDS {
-                for d in &depths {
+                for d in &tpl_depths {
                     probes.push(Probe { target: *t, kind: kind.into(), n: *d, host: format!("tpl:{tpl}"), slot: 0 });
                 }
             }
@@ -1026,10 +1062,12 @@ pub fn run(s: &Session) {
     if std::env::var("PV_DECODE_SKIP_PROBES").is_err() {
         // batches: probes of one kind and depth together, so that a replayed batch is small
         probes.sort_by(|a, b| (a.kind.as_str(), a.n).cmp(&(b.kind.as_str(), b.n)));
-        let batches: Vec<ProbeBatch> = probes.chunks(64).map(|c| ProbeBatch { probes: c.to_vec() }).collect();
+        let batches: Vec<ProbeBatch> = probes.chunks(256).map(|c| ProbeBatch { probes: c.to_vec() }).collect();
         s.note("isolated_probes", serde_json::json!(batches.iter().map(|b| b.probes.len()).sum::<usize>()));
         s.foreach("isolated-probes", batches, false, check_probe_batch(s));
-        let _ = std::fs::remove_dir_all(std::env::temp_dir().join(format!("pv-decode-probes-{}", std::process::id())));
+        if std::env::var_os("PV_DECODE_KEEP_LISTS").is_none() {
+            let _ = std::fs::remove_dir_all(std::env::temp_dir().join(format!("pv-decode-probes-{}", std::process::id())));
+        }
     }
 
     // health: the generator reached what it claims
